@@ -53,7 +53,11 @@ func computeChange(target *targetInfo) (*configapi.PathValues, error) {
 	}
 	//deletes
 	for _, path := range target.removes {
-		deleteValue, _ := valueutils.NewChangeValue(path, *configapi.NewTypedValueEmpty(), true)
+		deleteValue, err := valueutils.NewChangeValue(path, *configapi.NewTypedValueEmpty(), true)
+		if err != nil {
+			// a nil entry in the logged change would crash the transaction controller
+			return &configapi.PathValues{}, err
+		}
 		newChanges[path] = deleteValue
 	}
 
